@@ -330,3 +330,15 @@ pub fn stress(seed: u64, runs: usize, dir: &str, copies: usize) {
     }
     println!("{}", json!({"ev":"eof"}));
 }
+
+/// ctrlib <in> <outdir> <k> <threads> <limit> <delete> <acgt>: CountComputer through the library with a tiny memory ceiling
+/// (chunks / partitions the command line cannot reach); no hooks, for run histories (C17)
+pub fn ctrlib(inp: &str, od: &str, k: usize, threads: usize, limit: u64, delete: bool, acgt: bool) {
+    std::fs::create_dir_all(od).unwrap();
+    let mut c = CountComputer::new(inp.to_string(), od.to_string(), k);
+    c.set_threads(threads);
+    c.set_max_memory(mem_for_limit(limit));
+    c.set_acgt_output(acgt);
+    c.count();
+    c.merge(delete);
+}
